@@ -8,6 +8,7 @@ package main
 //   vcheck list                           list harness entries
 
 import (
+	"context"
 	"encoding/json"
 	"flag"
 	"fmt"
@@ -332,6 +333,14 @@ func checkMain(prop, tierName string, extra []string) int {
 		return 2
 	}
 	self, _ := os.Executable()
+	budget := 40 * time.Minute
+	if tier > 0 {
+		budget = 5 * time.Hour
+	}
+	if v, err := strconv.Atoi(os.Getenv("VF_BUDGET_S")); err == nil && v > 0 {
+		budget = time.Duration(v) * time.Second
+	}
+	deadline := time.Now().Add(budget)
 	sem := make(chan struct{}, 16)
 	var wg sync.WaitGroup
 	for ji, j := range jobs {
@@ -347,10 +356,19 @@ func checkMain(prop, tierName string, extra []string) int {
 			if j.spec.MaxCand > 0 {
 				args = append(args, "-maxcand", strconv.Itoa(j.spec.MaxCand))
 			}
-			cmd := exec.Command(self, args...)
+			// wall-clock budget of the whole check (VF_BUDGET_S; default 40 min
+			// quick, 5 h thorough): a worker still running then is stopped and its
+			// entry reported as inconclusive, never as passed
+			ctx, cancel := context.WithDeadline(context.Background(), deadline)
+			defer cancel()
+			cmd := exec.CommandContext(ctx, self, args...)
 			cmd.Env = append(os.Environ(), "VERIF_DIR="+verifDir)
 			ob, err := cmd.CombinedOutput()
 			j.log = string(ob)
+			if ctx.Err() != nil {
+				j.res = &WorkerResult{Entry: j.spec.Entry, Fatal: "time budget of the check exceeded: the exploration of this entry was stopped (inconclusive)"}
+				return
+			}
 			var r WorkerResult
 			if b, rerr := os.ReadFile(out); rerr == nil && json.Unmarshal(b, &r) == nil {
 				j.res = &r
